@@ -7,6 +7,8 @@ Parses NUM_PY (default: $NUM_PY_PATH, else /repo/tm/num.py) with `ast` and write
 
   <lean-root>/BB/Generated/NumTables.lean   one theorem per literal special case / table entry of
                                             `Exp.__mod__` and `exp_mod_special_cases`
+  <lean-root>/BB/Generated/NumTablesData.lean  the literal tables of `exp_mod_special_cases` as Lean DATA
+                                            (import-free; consulted by the model BB/Model/NumModTree.lean)
   <lean-root>/BB/Audit/C18.lean             `#print axioms` for every generated theorem
 
 and prints a JSON summary on stdout (theorem names, num.py lines, machine-readable claim, the Lean
@@ -14,6 +16,9 @@ line range of each theorem).  Each theorem states the universally quantified ari
 Python code relies on at that line; its proof is an instance of a hand-written periodicity lemma
 (BB/Lemmas/PowMod.lean) closed by `decide` on one finite computation, so a wrong literal in num.py
 makes `lake build BB.Generated.NumTables` fail at the theorem named after that line.
+The data file and the theorems are linked inside NumTables.lean: `specialTables_data` (the flattened
+data IS the list of proved entries, by `decide`) and `specialTables_sound` (hence every entry of the
+data is a true statement about every exponent >= 2 in its residue class).
 
 Anything inside the `match base:` of `Exp.__mod__` or the tables of `exp_mod_special_cases` that
 this script does not understand is an error (exit 2): a special case is never skipped silently.
@@ -130,15 +135,17 @@ class Out:
         self.thms = []          # dicts
         self.notes = []
         self.unmodelled = []
+        self.special = None     # {"base", "line", "tables": [(M, P, [(r, v, theorem name)])]}
 
-    def add(self, name, line, kind, statement, proof, claim, src):
+    def add(self, name, line, kind, statement, proof, claim, src, pre=""):
         if any(t["name"] == name for t in self.thms):
             k = 2
             while any(t["name"] == f"{name}_dup{k}" for t in self.thms):
                 k += 1
             name = f"{name}_dup{k}"
         self.thms.append({"name": name, "line": line, "kind": kind, "statement": statement,
-                          "proof": proof, "claim": claim, "source": src})
+                          "proof": proof, "claim": claim, "source": src, "pre": pre})
+        return name
 
 
 def entry_thm(out, name, line, b, m, cond, v, src, where):
@@ -433,6 +440,7 @@ def special_cases(out, tree, lines):
     if len(matches) != 1 or not is_name(matches[0].subject, "mod"):
         raise Unsupported(fn, "exp_mod_special_cases: expected exactly one `match mod`")
     table_var = None
+    tables = []
     for c in matches[0].cases:
         if isinstance(c.pattern, ast.MatchAs) and c.pattern.pattern is None:
             if not all(isinstance(x, ast.Raise) for x in c.body):
@@ -452,13 +460,28 @@ def special_cases(out, tree, lines):
         if not isinstance(P, int) or P <= 0:
             raise Unsupported(c.body[0], f"period expression gives {P!r} for mod={M}")
         d = c.body[0].value
+        if any(M == t[0] for t in tables):
+            raise Unsupported(c.pattern, f"two `case {M}` tables (only the first is reachable)")
+        rows = []
         for k, v in zip(d.keys, d.values):
             r, val = (const_int(k) if k is not None else None), const_int(v)
             if r is None or val is None:
                 raise Unsupported(k or d, "table entry is not `int: int`")
+            if any(r == row[0] for row in rows):
+                raise Unsupported(k, f"key {r} twice in the table of mod={M} (the later one wins in Python)")
             line = k.lineno
+            before = len(out.thms)
             entry_thm(out, f"special_b{base}_m{M}_r{r}_L{line}", line, base, M, (P, r), val,
                       src_line(lines, line), f"exp_mod_special_cases mod={M} exp%{P}=={r}")
+            name = out.thms[before]["name"]
+            if r < 0 or val < 0:
+                # cannot be Nat data; the entry theorem above fails (val < 0) or is vacuous (r < 0)
+                out.notes.append(f"{name}: negative key or value, not part of the data tables")
+                continue
+            rows.append((r, val, name))
+        tables.append((M, P, rows))
+    out.special = {"base": base, "line": fn.lineno, "tables": tables,
+                   "source": src_line(lines, fn.lineno)}
     # the lookup `return <table_var>[<per_var>]`
     ok = False
     for st in ast.walk(fn):
@@ -467,6 +490,60 @@ def special_cases(out, tree, lines):
             ok = True
     if not ok:
         raise Unsupported(fn, "exp_mod_special_cases: `return values[period]` not found")
+    link_data(out)
+
+
+DATA_NS = "BB.NumTablesData"
+
+
+def link_data(out):
+    """the theorems that tie BB/Generated/NumTablesData.lean to the per-entry theorems"""
+    sp = out.special
+    pre = ["/-! ### the tables as data (BB/Generated/NumTablesData.lean) are exactly the proved entries -/\n\n",
+           "/-- what one table entry `(modulus, period modulus, exp % period modulus, value)` claims -/\n",
+           "def EntryClaim (t : Nat × Nat × Nat × Nat) : Prop :=\n",
+           f"  ∀ e : Nat, 1 < e → e % t.2.1 = t.2.2.1 → {DATA_NS}.specialBase ^ e % t.1 = t.2.2.2\n\n",
+           "/-- every entry of the data with the theorem (above) that proves it -/\n",
+           "def provedEntries : List { t : Nat × Nat × Nat × Nat // EntryClaim t } := [\n"]
+    rows = [f"  ⟨({M}, {P}, {r}, {v}), {name}⟩" for M, P, rs in sp["tables"] for r, v, name in rs]
+    pre.append(",\n".join(rows) + ("\n" if rows else ""))
+    pre.append("]\n\n")
+    out.add("specialTables_data", sp["line"], "link",
+            f"{DATA_NS}.specialFlat = provedEntries.map Subtype.val",
+            "by decide +kernel", {"generic": "tables-data"}, sp["source"], pre="".join(pre))
+    out.add("specialTables_sound", sp["line"], "link",
+            f"∀ t, t ∈ {DATA_NS}.specialFlat → EntryClaim t",
+            "by\n  intro t ht\n  rw [specialTables_data] at ht\n"
+            "  obtain ⟨p, _, rfl⟩ := List.mem_map.mp ht\n  exact p.property",
+            {"generic": "tables-sound"}, sp["source"])
+    out.add("specialTables_per_pos", sp["line"], "link",
+            f"∀ t, t ∈ {DATA_NS}.specialTables → 0 < t.2.1",
+            "by decide +kernel", {"generic": "tables-period-positive"}, sp["source"])
+
+
+def render_data(out, sha):
+    sp = out.special
+    s = ["/-\nGENERATED by /verif/tools/extract_num.py from tm/num.py — do not edit, it is rewritten on every check.\n"
+         "The literal tables of `exp_mod_special_cases` as data, for the model BB/Model/NumModTree.lean.\n"
+         "Import-free.  BB/Generated/NumTables.lean proves every entry (`specialTables_sound`).\n"
+         f"num.py sha256 {sha}\n-/\n\n"
+         f"namespace {DATA_NS}\n\n"
+         "/-- the base of the guard `if base != <int> or ...: raise ExpModLimit` -/\n"
+         f"def specialBase : Nat := {sp['base']}\n\n"
+         "/-- one element per `case <mod>:`: (mod, `mod // 3` evaluated at that mod, the `values` table as\n"
+         "    (key, value) pairs in source order) -/\n"
+         "def specialTables : List (Nat × Nat × List (Nat × Nat)) := [\n"]
+    tabs = []
+    for M, P, rows in sp["tables"]:
+        body = ", ".join(f"({r}, {v})" for r, v, _ in rows)
+        tabs.append(f"  ({M}, {P}, [{body}])")
+    s.append(",\n".join(tabs) + ("\n" if tabs else ""))
+    s.append("]\n\n"
+             "/-- all entries as (mod, period modulus, key, value) -/\n"
+             "def specialFlat : List (Nat × Nat × Nat × Nat) :=\n"
+             "  specialTables.flatMap fun t => t.2.2.map fun e => (t.1, t.2.1, e.1, e.2)\n\n"
+             f"end {DATA_NS}\n")
+    return "".join(s)
 
 
 # ------------------------------------------------------------------ main
@@ -527,6 +604,7 @@ BB.PowMod.entry_of_ok / reduce_of_ok (periodicity of `e ↦ b^e % m`, proved onc
 premise is a closed Boolean computed by `decide`: one finite check, labelled as such (DESIGN §4).
 -/
 import BB.Lemmas.PowMod
+import BB.Generated.NumTablesData
 
 namespace BB.NumTables
 open BB.PowMod
@@ -541,7 +619,7 @@ def render(out):
         doc = f"/-- num.py:{t['line']}  `{t['source'].replace('-/', '- /')}` -/\n"
         body = f"theorem {t['name']} :\n    {t['statement']} :=\n  {t['proof']}\n\n"
         t["lean_first"] = n
-        blk = doc + body
+        blk = t.get("pre", "") + doc + body
         n += blk.count("\n")
         t["lean_last"] = n - 2
         parts.append(blk)
@@ -583,10 +661,12 @@ def main(argv):
         return 2
     gen = os.path.join(lean_root, "BB", "Generated", "NumTables.lean")
     aud = os.path.join(lean_root, "BB", "Audit", "C18.lean")
-    changed = write_if_changed(gen, render(out))
+    data = os.path.join(lean_root, "BB", "Generated", "NumTablesData.lean")
+    changed = write_if_changed(data, render_data(out, sha))
+    changed = write_if_changed(gen, render(out)) or changed
     write_if_changed(aud, render_audit(out))
     summary = {
-        "source": path, "sha256": sha, "generated": gen, "audit": aud, "changed": changed,
+        "source": path, "sha256": sha, "generated": gen, "data": data, "audit": aud, "changed": changed,
         "count": len(out.thms),
         "by_kind": {k: sum(1 for t in out.thms if t["kind"] == k) for k in sorted({t["kind"] for t in out.thms})},
         "theorems": [{k: t[k] for k in ("name", "line", "kind", "statement", "claim", "source",
